@@ -27,13 +27,38 @@ pub fn cases(thorough: bool, seed: u64) -> Vec<Params> {
                 hs = lo.into_iter().chain(hi).collect();
                 hs.dedup();
             }
-            for h in hs {
+            for (hi, h) in hs.into_iter().enumerate() {
                 for r in 0..n as usize {
                     if !h.contains(&r) {
                         out.push(Params { n, t, ids: ids.clone(), subset: h.clone(), variant: V_EXISTING, aux: r as u64, seed });
                     }
                 }
                 out.push(Params { n, t, ids: ids.clone(), subset: h.clone(), variant: V_NEW, aux: (h.len() % 3) as u64, seed });
+                // the helper list is the caller's: it need not be ascending. Reversed, rotated
+                // (largest identifier first / in the middle) and — thorough — every rotation.
+                let mut orders: Vec<Vec<usize>> = vec![];
+                let mut rev = h.clone();
+                rev.reverse();
+                orders.push(rev);
+                for rot in 1..h.len() {
+                    if thorough || rot == 1 || rot == h.len() - 1 {
+                        let mut o = h.clone();
+                        o.rotate_left(rot);
+                        orders.push(o);
+                    }
+                }
+                orders.dedup();
+                let r = (0..n as usize).find(|r| !h.contains(r)).unwrap_or(0);
+                for (oi, o) in orders.into_iter().enumerate() {
+                    if !thorough && k > 0 && oi > 0 {
+                        continue;
+                    }
+                    if (hi + oi) % 2 == 0 {
+                        out.push(Params { n, t, ids: ids.clone(), subset: o, variant: V_EXISTING, aux: r as u64, seed });
+                    } else {
+                        out.push(Params { n, t, ids: ids.clone(), subset: o, variant: V_NEW, aux: (oi % 3) as u64, seed });
+                    }
+                }
             }
         }
         for a in 0..3u64 {
